@@ -7,11 +7,11 @@ import p01, p02
 PRELUDE = "From MV Require Import Vec Hop R01 Cplx Mat Propagate R02.\n"
 
 
-def final_state(mname, x0, p0, dt, T, integ, cls="fssh", rho0=None):
+def final_state(mname, x0, p0, dt, T, integ, cls="fssh", rho0=None, rep="adiabatic"):
     import mudslide
     from mudslide.models import scattering_models as M
     n = int(round(T / dt))
-    model = M[mname]() if cls != "md" else None
+    model = M[mname](representation=rep) if cls != "md" else None
     if cls == "md":
         from mudslide.models import HarmonicModel
         model = HarmonicModel([0.0], 0.0, [[0.02]], [200.0])
@@ -42,20 +42,30 @@ def run(tier, seed):
             bad.append(dict(failed="after a step, last_velocity / last_position hold the values from before the step (they define the midpoint generator)", case={k: m[k] for k in ("cls", "mass", "x", "v", "dt")})); break
     f2, e2 = run_case_check("C07verlet", PRELUDE, "verletcase", "chk_verlet", vc, per_file=400)
     # (2) convergence order at a fixed final time, smooth models, both integrators, coherent start
-    setups = [("dual", [-4.0], [12.0], 640.0, (8.0, 4.0, 2.0), 0.125)] + ([] if tier == "quick" else [("super", [-5.0], [8.0], 960.0, (8.0, 4.0, 2.0), 0.125), ("modelx", [-9.0], [10.0], 1200.0, (10.0, 5.0, 2.5), 0.15625)])
-    for mname, x0, p0, T, dts, dtref in setups:
+    setups = [("dual", [-4.0], [12.0], 640.0, (8.0, 4.0, 2.0), 0.125, "adiabatic"), ("dual", [-4.0], [12.0], 320.0, (2.0, 1.0, 0.5), 0.0625, "diabatic")] \
+        + ([] if tier == "quick" else [("super", [-5.0], [8.0], 960.0, (8.0, 4.0, 2.0), 0.125, "adiabatic"), ("super", [-5.0], [8.0], 480.0, (2.0, 1.0, 0.5), 0.0625, "diabatic"),
+                                       ("modelx", [-9.0], [10.0], 1200.0, (10.0, 5.0, 2.5), 0.15625, "adiabatic")])
+    for mname, x0, p0, T, dts, dtref, rep in setups:
         n = M[mname]().nstates()
         a = np.zeros(n, dtype=complex); a[0] = 0.8; a[1] = 0.6j; rho0 = np.outer(a, a.conj())
+        finals = {}
         for integ in ("exp", "linear-rk4"):
-            ref, _ = final_state(mname, x0, p0, dtref, T, integ, rho0=rho0)
-            errs = [float(np.max(np.abs(final_state(mname, x0, p0, dt, T, integ, rho0=rho0)[0] - ref))) for dt in dts]
+            ref, _ = final_state(mname, x0, p0, dtref, T, integ, rho0=rho0, rep=rep)
+            finals[integ] = ref
+            errs = [float(np.max(np.abs(final_state(mname, x0, p0, dt, T, integ, rho0=rho0, rep=rep)[0] - ref))) for dt in dts]
             r1, r2 = errs[0] / errs[1], errs[1] / errs[2]
-            res.extra.setdefault("order_ratios", {})["%s/%s" % (mname, integ)] = dict(errors=errs, ratios=[r1, r2])
+            res.extra.setdefault("order_ratios", {})["%s/%s/%s" % (mname, rep, integ)] = dict(errors=errs, ratios=[r1, r2])
             res.count("order-probe/" + integ)
             res.case(("order", mname, integ), True, dict(model=mname, integrator=integ, errors=errs, ratios=[r1, r2]))
             if not (3.0 < r2 < 5.2):
-                bad.append(dict(failed="halving the time step reduces the error by a factor of four (%s, %s: errors %r, ratios %.2f %.2f)" % (mname, integ, errs, r1, r2),
-                                case=dict(model=mname, x0=x0, p0=p0, T=T, dts=dts, integrator=integ)))
+                bad.append(dict(failed="halving the time step reduces the error by a factor of four (%s, %s, %s: errors %r, ratios %.2f %.2f)" % (mname, rep, integ, errs, r1, r2),
+                                case=dict(model=mname, x0=x0, p0=p0, T=T, dts=dts, integrator=integ, representation=rep)))
+        # both integrators converge to the same solution
+        dd = float(np.max(np.abs(finals["exp"] - finals["linear-rk4"])))
+        res.extra.setdefault("exp_vs_rk4_at_fine_dt", {})["%s/%s" % (mname, rep)] = dd
+        if dd > 1e-4:
+            bad.append(dict(failed="both electronic integrators converge to the same solution (%s, %s: difference %.3e at dt=%g)" % (mname, rep, dd, dtref),
+                            case=dict(model=mname, representation=rep, x0=x0, p0=p0, T=T)))
     # MD order on the harmonic model
     ref, _ = final_state("", [0.5], [1.0], 0.0625, 400.0, "", cls="md")
     errs = [float(np.max(np.abs(final_state("", [0.5], [1.0], dt, 400.0, "", cls="md")[0] - ref))) for dt in (4.0, 2.0, 1.0)]
